@@ -1,4 +1,4 @@
-import Logrange.Model.RestartModel
+import Logrange.Model.PersistJson
 /-!
 # C07 — histories of a server: every operation that touches persisted state, stops, crashes, starts
 
@@ -6,7 +6,8 @@ import Logrange.Model.RestartModel
 joined by the events that end a process and start the next one on what it left:
 
 * `Ev.op o` — `o` under its guard (`enabled`): a partition is created for tags that parse back (`tag.Parse` produced
-  them: C08), a write goes to a partition the tag index knows (`GetOrCreateJournal` precedes every write; the first write
+  them: C08), that the tag index does not know yet and that are valid UTF-8 (repair of F-C07-901); a pipe is created only with
+  a name and conditions that are valid UTF-8 (repair of F-C07-902); a write goes to a partition the tag index knows (`GetOrCreateJournal` precedes every write; the first write
   is what creates the journal on disk), `deleteJournal` refuses a journal that still holds records (`j.Size() > 0` in front
   of `TIndex.Delete`: regenerated fact `deleteJournalRefusesNonEmpty`).
 * `Ev.ensurePipe p` — `EnsurePipe`: creates the pipe unless one of that name exists.
@@ -30,7 +31,13 @@ def Mem.empty : Mem := ⟨[], [], []⟩
 
 /-- the guard of an operation in the code -/
 def enabled (parseOk : TagLine → Bool) (s : Srv) : Op → Bool
-  | .newPartition tags _ => parseOk tags
+  | .newPartition tags _ =>
+    -- `getOrCreateJournal` creates a record only for a tag line it does not know, and (repair of F-C07-901,
+    -- `getOrCreateJournalRefusesInvalidUtf8`) only for one that `encoding/json` will store unchanged
+    parseOk tags && !(s.mem.tmap.any (fun e => e.1 == tags)) && !(getOrCreateJournalRefusesInvalidUtf8 && changedByJson tags)
+  | .createPipe p =>
+    -- repair of F-C07-902 (`newPPipeRefusesInvalidUtf8`)
+    !(newPPipeRefusesInvalidUtf8 && (changedByJson p.name || changedByJson p.tags || changedByJson p.flt))
   | .write src _ => tmapHasSrc s.mem.tmap src
   | .dropPartition src => !(deleteJournalRefusesNonEmpty && (journalsOnDisk s.disk.db).contains src)
   | _ => true
@@ -94,7 +101,7 @@ def afterStart (K : Codecs) (parseOk : TagLine → Bool) (d : Disk) (s : Srv) : 
 def stepEv (K : Codecs) (parseOk : TagLine → Bool) (s : Srv) (ev : Ev) : Srv :=
   match ev with
   | .op o => gstep K parseOk s o
-  | .ensurePipe p => if s.mem.pipes.any (fun q => q.cfg.name == p.name) then s else step K s (.createPipe p)
+  | .ensurePipe p => if s.mem.pipes.any (fun q => q.cfg.name == p.name) then s else gstep K parseOk s (.createPipe p)
   | _ =>
     match startDisk K parseOk s ev with
     | some d => afterStart K parseOk d s
